@@ -6,6 +6,8 @@
 //                       hideJacobian does (colvarbias_abf.cpp: colvars[i]->enable(f_cv_hide_Jacobian))
 //   rot name            print "ROT name i type q0 q1 q2 q3 jd nfit fit.." for every component of the variable: the optimal rotation
 //                       quaternion of its first atom group and its Jacobian derivative (inputs of the model for rotated frames)
+//   cvcflags name 1 0 ..   colvar::set_cvc_flags (script command cvcflags)
+//   modcvc name c0 | c1 ..  colvar::update_cvc_config (script command modifycvcs): per-component configuration strings separated by |
 //   fj                  print "FJ name <hex>" (Jacobian force kT*jd held by each variable) and
 //                       "FOLD name <hex>" (f_old), read from the variable's private members
 #include <cstdio>
@@ -74,6 +76,31 @@ struct c07_session : public vsim_session {
           o << "\n";
         }
       }
+      return true;
+    }
+    if (cmd == "cvcflags") {
+      // `cv colvar <name> cvcflags {1 0 ..}`: enable / disable components from the next evaluation on
+      colvar *c = cvm::colvar_by_name(a[0]);
+      std::vector<bool> flags;
+      for (size_t k = 1; k < a.size(); k++) flags.push_back(atoi(a[k].c_str()) != 0);
+      int err = c ? c->set_cvc_flags(flags) : COLVARS_ERROR;
+      o << "CVCFLAGS err=" << vs_errclass(err | cvm::get_error()) << "\n";
+      cvm::clear_error();
+      return true;
+    }
+    if (cmd == "modcvc") {
+      // what `cv colvar <name> modifycvcs {conf0} {conf1} ..` does (the scenario language has no quoting): the rest of the
+      // line, split at '|', is the list of per-component configuration strings (empty = unchanged)
+      colvar *c = cvm::colvar_by_name(a[0]);
+      std::vector<std::string> confs(1, std::string());
+      for (size_t k = 1; k < a.size(); k++) {
+        if (a[k] == "|") { confs.push_back(std::string()); continue; }
+        if (confs.back().size()) confs.back() += " ";
+        confs.back() += a[k];
+      }
+      int err = c ? c->update_cvc_config(confs) : COLVARS_ERROR;
+      o << "MODCVC err=" << vs_errclass(err | cvm::get_error()) << "\n";
+      cvm::clear_error();
       return true;
     }
     if (cmd == "fj") {
